@@ -48,6 +48,10 @@ def parkSeg1 : Bytes := [50, 13, 10, 97]
 /-- `\xff\r\nZZ\r\n` — last byte of the chunk (no output), chunk end, malformed chunk-size line -/
 def parkSeg2 : Bytes := [255, 13, 10, 90, 90, 13, 10]
 def parkOps : List Op := [.deliver parkSeg1, .reqRead 0, .deliver parkSeg2, .reqRead 0]
-def parkWorld : World Codec.dropFF := run (World.init Codec.dropFF 4 .chunked 0 true false false false) parkOps
+/-- the code before the `_wait` repair: `waitRechecks = false` -/
+def parkWorld : World Codec.dropFF := run (World.init Codec.dropFF 4 .chunked 0 true false false false 128 false false) parkOps
+/-- the same scenario up to (not including) the last `BaseRequest.read()` step, `_wait` repaired or not -/
+def parkRun (waitRechecks : Bool) : World Codec.dropFF :=
+  run (World.init Codec.dropFF 4 .chunked 0 true false false false 128 false waitRechecks) (parkOps.take 3)
 
 end Aio.C09
